@@ -1006,6 +1006,49 @@ def case_history(ctx, cls, rseed):
     for i in range(12):
         S.graph_history_check(ctx, "matching", "PerfectMatchingPrinciple[%s]" % cls,
                               lambda G: g.PerfectMatchingPrinciple(G, formula_class=K), r, n=r.randint(4, 7))
+    # the same with networkx objects edited in place between two calls (edits that keep name, order and size: an edge
+    # moved, two edges switched), for the simple-graph and the bipartite families
+    import networkx
+    body = lambda F: (F.number_of_variables(), list(F.all_variable_labels()), sorted(sorted(map(repr, c)) for c in F))
+    for i in range(10):
+        n = r.randint(5, 8)
+        X = networkx.Graph(name="edited in place")
+        X.add_nodes_from(range(1, n + 1))
+        prs = S.pairs(n)
+        for e in r.sample(prs, r.randint(n - 1, n + 2)):
+            X.add_edge(*e)
+        LB, RB = r.randint(2, 3), r.randint(3, 4)
+        XB = networkx.Graph(name="edited in place")
+        XB.add_nodes_from(range(1, LB + 1), bipartite=0)
+        XB.add_nodes_from(range(LB + 1, LB + RB + 1), bipartite=1)
+        bprs = [(u, v) for u in range(1, LB + 1) for v in range(LB + 1, LB + RB + 1)]
+        for e in r.sample(bprs, r.randint(3, len(bprs) - 1)):
+            XB.add_edge(*e)
+        for fam, H, allp, gen in (("matching", X, prs, lambda Z: g.PerfectMatchingPrinciple(Z, formula_class=K)),
+                                  ("gphp", XB, bprs, lambda Z: g.GraphPigeonholePrinciple(Z, formula_class=K)),
+                                  ("subsetcard", XB, bprs, lambda Z: g.SubsetCardinalityFormula(Z, formula_class=K))):
+            st, _ = ctx.call(gen, H)
+            if st == "exc":
+                continue
+            for step in range(3):
+                E = [tuple(sorted(e)) for e in H.edges()]
+                free = [e for e in allp if e not in E]
+                if not E or not free:
+                    break
+                old_e, new_e = r.choice(E), r.choice(free)
+                H.remove_edge(*old_e)
+                H.add_edge(*new_e)
+                fresh = networkx.Graph(name=H.graph.get("name", ""))
+                fresh.add_nodes_from(H.nodes(data=True))
+                fresh.add_edges_from(H.edges())
+                s1, F1 = ctx.call(gen, H)
+                s2, F2 = ctx.call(gen, fresh)
+                ctx.count("networkx_objects_edited_in_place")
+                if s1 == "ok" and s2 == "ok" and body(F1) != body(F2):
+                    ctx.violation("%s:graph-history:formula-of-an-earlier-state" % fam,
+                                  "%s[%s] on a networkx graph after moving the edge %r to %r in place: the formula differs from the one of a "
+                                  "fresh networkx graph with the same nodes and edges" % (fam, cls, old_e, new_e))
+                    break
 
 
 def case_table_class(ctx, sizes):
